@@ -126,7 +126,8 @@ func flattenHTML(evs []hEvent) *hFlat {
 			}
 			if hObjectLike[e.Name] {
 				f.words = append(f.words, hWordGap{word: "<" + e.Name + ">", ctx: strings.Join(stack[:len(stack)-1], ">"), ws: gapWS, brk: gapBrk})
-				gapWS, gapBrk = false, false
+				// inside, the element starts its own box: leading white space there does not render
+				gapWS, gapBrk = false, true
 			}
 			if e.Name == "pre" || e.Name == "textarea" {
 				preDepth++
@@ -155,7 +156,9 @@ func flattenHTML(evs []hEvent) *hFlat {
 				rawIdx = -1
 			}
 			if hObjectLike[e.Name] && e.Name != "svg:svg" && e.Name != "math:math" {
-				// the element as a whole was one word; whitespace after it counts from here
+				// the element as a whole is one inline word: block-level content inside it (a <p> fallback in
+				// <video>, an <option>) does not make the gap after it a break boundary
+				gapWS, gapBrk = false, false
 			}
 		case 'T':
 			if skip > 0 {
@@ -663,6 +666,18 @@ func C03(run *core.Run) {
 }
 
 func init() {
+	// `vcheck c03judge <file-with-html>`: run the C03 oracle on one document under default options
+	Children["c03judge"] = func(args []string) {
+		b, _ := os.ReadFile(args[0])
+		for _, subs := range []bool{false, true} {
+			c := c03Opts{withSubs: subs}
+			if len(args) > 1 && args[1] == "endtags" {
+				c.o.KeepEndTags = true
+			}
+			v, out := c03Judge(string(b), c)
+			fmt.Printf("subs=%v verdict=%q\nout=%s\n", subs, v, out)
+		}
+	}
 	Children["c03debug"] = func(args []string) {
 		b, _ := os.ReadFile(args[0])
 		var rp struct {
